@@ -1,61 +1,410 @@
-(* DESIGN NOTE (no code): what it would take to prove the helpers that use `mod.pkg()` or
-   `import "std/..."` -- lists.zip, lists.slice, lists.ops, tuples.has_fields, tuples.field_type,
-   tuples.ops, the string helpers of std/strings.ucg, schema.{all,any,shaped}, functional.maybe.
+(* M-SEM-IMPORT: the definitional evaluator of sem/Sem.v extended with `import` and `mod.pkg`.
 
-   Why they are out of reach today.  sem/Sem.v answers [Unsup] for [EImport], and a module value
-   [VModule params out body] carries no `pkg` field, so inside a module body `mod.pkg` is a missing
-   field (NULL / error), and `mod.pkg()` is a call of a non-function: [Err].  Sem.v must stay as it is
-   (it is the definitional semantics tied to the VM by C01), so the extension has to wrap it.
+   sem/Sem.v answers [Unsup] for [EImport] and has no `pkg`; it is left untouched (the compile-
+   correctness proofs are about it).  This file defines
 
-   1. Import table.  A parameter [imports : bytes -> option prog] (path -> parsed file; the
-      generated terms of gen/StdLib.v give the five std entries, keyed "std/lists.ucg" ...).
-      Evaluation of [EImport p] = run [imports p] in the EMPTY scope with the same env/strictness and
-      return [VTuple (export_scope s false)] (the reference: "import evaluates the file and yields a
-      tuple of its bindings").  Import cycles: the implementation detects them through an import
-      stack and fails; model it with a visited list of paths in the context, [Err] on re-entry.
-      Imports are memoised in the implementation; since evaluation is pure that is unobservable
-      except through TRACE output, so the model can re-evaluate.
+   * [link_prog path p] -- what the implementation does when a module is DEFINED in a file that has a
+     path (src/build/opcode/vm.rs, op_module: `pkg_ptr` = the five-op function  func() => import "<path>";
+     op_copy: the field `pkg` is merged into the module's `mod` tuple when the module is instantiated).
+     We model it as a syntactic pass over the file: every module expression of the file (at any depth)
+     gets one more parameter, LAST:   pkg = func() => import "<path>".
+     Differences to the implementation, all invisible to programs that use `mod` only through
+     `mod.<field>` and never pass a field called `pkg`:
+       - position of `pkg` inside the `mod` tuple (implementation: after the override fields and `this`);
+       - an explicit override `m{pkg = f}` wins here, is overwritten by the implementation;
+       - the closure of the pkg function captures the defining scope here, is empty there
+         (a closure is not observable: functions are neither comparable nor rendered).
+   * [eval_imp imports] -- a copy of Sem.eval / copy_into / exec_list (generated from the text of
+     Sem.v, lines 372-647) whose only change is the [EImport] case, parametrised by an import table
+     [imports : bytes -> option prog] and threaded with the stack of files being imported:
+       import p = cycle error                         if p is on the stack
+                = error                               if the table has no p
+                = VTuple (export_scope s false)       where s = the scope after running the file's
+                                                      statements in the empty scope with p pushed
+     (src/build/opcode/runtime.rs, Hook::Import: cache lookup, cycle check against import_stack, a fresh
+     VM for the file, `symbols_to_tuple(true)` = all bindings in name order, functions and modules kept.
+     The implementation caches the value of a finished import; evaluation is pure, so re-evaluating
+     gives the same value -- the cache is not modelled.)
+   * [std_imports] -- the table of the five generated library files, linked, keyed by the literal
+     paths "std/<name>.ucg" under which the implementation registers its embedded library.
+   Conservativity ([eval_imp_conservative] in Sem_Import_Lemmas.v): wherever Sem.eval gives a definite
+   answer (Ok, Err, Fuel -- i.e. anything but Unsup) eval_imp gives the same answer. *)
+From Ucg Require Export sem.Sem.
+From UcgGen Require Import StdLib.
 
-   2. `mod.pkg`.  In the implementation a module DEFINED in file P gets an extra field
-      `pkg = func() => import "P"` in its `mod` tuple at definition time (ast/walk + vm: the
-      module's "pkg_ptr").  So [VModule] needs the defining path: either a new value constructor
-      [VModuleP (path) ps out body], or -- without touching [value] -- store the path as a reserved
-      hidden parameter (e.g. key "\000pkg") that [copy_into] turns into
-      [(b "pkg", VFunc [] (EImport path) [])] when it builds [mod].  The second keeps every existing
-      theorem about [value] intact and needs only: (a) [EModule] evaluation takes the current file
-      path from the context (new ctx field [file : option bytes]; top-level files set it; `import`
-      sets it for the imported program); (b) [copy_into] adds the pkg field before `this`.
+(* ------------------------------------------------------------------ *)
+(* linking: the `pkg` parameter of the modules of a file                *)
+Section Link.
+  Variable path : bytes.
+  Definition pkg_param : bytes * expr := (b "pkg", EFunc [] (EImport path)).
 
-   3. Shape of the wrapper.  Because [eval]/[copy_into]/[exec_list] are closed mutual fixpoints,
-      a wrapper cannot intercept [EImport] inside them.  Two options:
-        (a) [Sem_Import.eval_i]: a copy of the three fixpoints with the two extra cases, plus a
-            conservativity theorem  "no EImport/pkg reachable -> eval_i = eval"  proved by the same
-            induction as [Std_Fuel.mono_all] (each case is [le_res]-style congruence).  All rules of
-            Std_Rules.v are then re-derived for [eval_i] by replaying their (equation-based) proofs:
-            only the [eval_S_*] equations mention the fixpoint.
-        (b) Pre-linking: a syntactic pass [link : (bytes -> option prog) -> expr -> expr] that
-            replaces [EImport p] by an expression that rebuilds the file's export tuple
-            (a module-less encoding: `ECopy (EModule [] None prog_p) []` evaluates prog_p in a fresh
-            scope and exports it -- exactly the import semantics, already inside Sem.v), and that
-            adds the `pkg` parameter `pkg = func() => <linked import of P>` to every [EModule] of
-            file P.  Recursion (lists.ops -> pkg.ops) is fine because `pkg` is a function: linking
-            is lazy under the [EFunc].  But a literal unfolding is infinite (pkg of lists mentions
-            every module of lists, each of which carries pkg ...), so [link] must be fuel-indexed
-            or tie the knot through the scope: bind the import thunk ONCE per file as a closure
-            value in the initial scope instead of as syntax.  Modules are hermetic (their bodies see
-            only `mod`), so the thunk has to travel in the parameters: that is again 2.
-      Recommendation: (a) with the hidden-parameter encoding of 2; est. 250 lines for the
-      fixpoints + conservativity, after which zip/slice/has_fields follow the pattern of
-      Std_Enumerate.v (reduce_list_inv over the index range, [range_from] characterised by
-      [seq]), with the side conditions  len1,len2 <= range_limit (Sem answers Unsup above 10^6).
+  Fixpoint link_expr (e : expr) : expr :=
+    match e with
+    | ENull | EBool _ | EInt _ | EFloat _ | EStr _ | ESym _ | EImport _ | EInclude _ _ => e
+    | ETuple fs => ETuple (map (fun kv => (fst kv, link_expr (snd kv))) fs)
+    | EList es => EList (map link_expr es)
+    | EBin o l r => EBin o (link_expr l) (link_expr r)
+    | ENot e1 => ENot (link_expr e1)
+    | EGroup e1 => EGroup (link_expr e1)
+    | ECopy t fs => ECopy (link_expr t) (map (fun kv => (fst kv, link_expr (snd kv))) fs)
+    | ERange st stp en => ERange (link_expr st) (option_map link_expr stp) (link_expr en)
+    | EFormatL parts args => EFormatL (map link_part parts) (map link_expr args)
+    | EFormatS parts arg => EFormatS (map link_part parts) (link_expr arg)
+    | ECall f args => ECall (link_expr f) (map link_expr args)
+    | ECast c e1 => ECast c (link_expr e1)
+    | EFunc ps body => EFunc ps (link_expr body)
+    | ESelect v d arms => ESelect (link_expr v) (option_map link_expr d)
+                                  (map (fun kv => (fst kv, link_expr (snd kv))) arms)
+    | EMap f t => EMap (link_expr f) (link_expr t)
+    | EFilter f t => EFilter (link_expr f) (link_expr t)
+    | EReduce f a t => EReduce (link_expr f) (link_expr a) (link_expr t)
+    | EModule ps out body =>
+      EModule (map (fun kv => (fst kv, link_expr (snd kv))) ps ++ [pkg_param])
+              (option_map link_expr out) (map link_stmt body)
+    | EFail e1 => EFail (link_expr e1)
+    | ETrace e1 => ETrace (link_expr e1)
+    | EConvert t e1 => EConvert t (link_expr e1)
+    end
+  with link_part (p : tpart) : tpart :=
+    match p with
+    | PStr s => PStr s
+    | PHole => PHole
+    | PExpr e => PExpr (link_expr e)
+    end
+  with link_stmt (s : stmt) : stmt :=
+    match s with
+    | SLet x e => SLet x (link_expr e)
+    | SExpr e => SExpr (link_expr e)
+    | SAssert e => SAssert (link_expr e)
+    | SOut t e => SOut t (link_expr e)
+    end.
+  Definition link_prog (p : prog) : prog := map link_stmt p.
+End Link.
 
-   4. Expected statements (for the record).
-        zip{list1,list2}      = [[x_i, y_i]] for i < min(len1,len2);  note `0:(len-1)` with an empty
-                                list is the range 0:-1 = [] -- fine -- but with strict=true nothing
-                                changes; with NULL list arguments the module defaults apply.
-        slice{start,end,list} = [list_i | start <= i <= end]; end defaults to len-1; the checks
-                                are start >= 0, start <= len, end <= len, so end = len passes the
-                                check and then indexes one past the end (NULL or error by
-                                strictness): a candidate _refuted once imports are modelled.
-        has_fields{tpl,fields}= forallb (fun f => f in keys tpl) fields.
-*)
+Local Arguments VNull {fo}. Local Arguments VBool {fo}. Local Arguments VInt {fo}. Local Arguments VFloat {fo}.
+Local Arguments VStr {fo}. Local Arguments VList {fo}. Local Arguments VTuple {fo}. Local Arguments VFunc {fo}.
+Local Arguments VModule {fo}.
+Local Arguments lookup {fo}. Local Arguments veq {fo}. Local Arguments merge_field {fo}. Local Arguments merge_fields {fo}.
+Local Arguments render {fo}. Local Arguments cast {fo}. Local Arguments arith' {fo}. Local Arguments compare_num {fo}.
+Local Arguments range_from {fo}. Local Arguments export_scope {fo}. Local Arguments with_scope {fo}.
+Local Arguments with_self {fo}. Local Arguments env_tuple {fo}. Local Arguments index {fo}. Local Arguments bind_params {fo}.
+Local Arguments sc {fo}. Local Arguments self_v {fo}. Local Arguments envt {fo}. Local Arguments strict {fo}.
+Local Arguments eq_ordered {fo}. Local Arguments Build_ctx {fo}. Local Arguments compatible {fo}.
+Local Arguments is_name {fo}. Local Arguments type_of {fo}. Local Arguments chk {fo}.
+
+Section SemImport.
+  Variable fo : float_ops.
+  Variable imports : bytes -> option prog.
+  Notation value := (value fo).
+  Notation scope := (scope fo).
+  Notation ctx := (ctx fo).
+
+  Fixpoint eval_imp (fuel : nat) (stk : list bytes) (c : ctx) (e : expr) {struct fuel} : res value :=
+    match fuel with
+    | O => Fuel
+    | S f =>
+      let ev := eval_imp f stk c in
+      let call (fv : value) (args : list value) : res value :=
+          match fv with
+          | VFunc ps body clo =>
+            if negb (Nat.eqb (List.length ps) (List.length args)) then Err
+            else do s <- bind_params ps args clo;
+                 eval_imp f stk {| sc := s; self_v := None; envt := envt c; strict := strict c; eq_ordered := eq_ordered c |} body
+          | _ => Err
+          end in
+      let tuple_lit (c' : ctx) (fs : list (bytes * expr)) : res (list (bytes * value)) :=
+          fold_left (fun acc '(k, e) => do a <- acc; do v <- eval_imp f stk c' e; merge_field a k v) fs (Ok []) in
+      match e with
+      | ENull => Ok VNull
+      | EBool v => Ok (VBool v)
+      | EInt z => Ok (VInt z)
+      | EFloat bits => Ok (VFloat (f_of_bits fo bits))
+      | EStr s => Ok (VStr s)
+      | ESym x =>
+        if bytes_eqb x (b "self") then match self_v c with Some v => Ok v | None => Err end
+        else match lookup x (sc c) with
+             | Some v => Ok v
+             | None => if bytes_eqb x (b "env") then Ok (env_tuple c) else Err
+             end
+      | ETuple fs => do r <- tuple_lit c fs; Ok (VTuple r)
+      | EList es => do r <- mapM ev es; Ok (VList r)
+      | EGroup e1 => ev e1
+      | ENot e1 => do v <- ev e1; match v with VBool x => Ok (VBool (negb x)) | _ => Err end
+      | EBin AND l r =>
+        do lv <- ev l;
+        match lv with
+        | VBool false => Ok (VBool false)
+        | VBool true => ev r          (* the reference asks for booleans on both sides; the right one is
+                                          returned as is by the implementation -- see finding C01-and-or-rhs *)
+        | _ => Err
+        end
+      | EBin OR l r =>
+        do lv <- ev l;
+        match lv with
+        | VBool true => Ok (VBool true)
+        | VBool false => ev r
+        | _ => Err
+        end
+      | EBin DOT l r =>
+        match r with
+        | ECopy (ESym k) fs | ECopy (EStr k) fs =>
+          do lv <- ev l; do tv <- index c lv (VStr k); copy_imp f stk c tv fs
+        | ECopy (EInt k) fs =>
+          do lv <- ev l; do tv <- index c lv (VInt k); copy_imp f stk c tv fs
+        | ECall (ESym k) args | ECall (EStr k) args =>
+          do avs <- mapM ev args; do lv <- ev l; do fv <- index c lv (VStr k); call fv avs
+        | ECall (EInt k) args =>
+          do avs <- mapM ev args; do lv <- ev l; do fv <- index c lv (VInt k); call fv avs
+        | ESym k => do lv <- ev l; index c lv (VStr k)
+        | _ => do lv <- ev l; do kv <- ev r; index c lv kv
+        end
+      | EBin IN l r =>
+        do hay <- ev r;
+        do needle <- match l with
+                     | ESym x => match hay with VTuple _ => Ok (VStr x) | _ => ev l end
+                     | _ => ev l
+                     end;
+        match hay with
+        | VTuple fs => match needle with
+                       | VStr k => Ok (VBool (match lookup k fs with Some _ => true | None => false end))
+                       | _ => Err end
+        | VList items =>
+          (fix go (items : list value) : res value :=
+             match items with
+             | [] => Ok (VBool false)
+             | v :: rest => do r <- veq (eq_ordered c) f v needle; if r then Ok (VBool true) else go rest
+             end) items
+        | VStr s => match needle with VStr part => Ok (VBool (contains_sub s part)) | _ => Ok (VBool false) end
+        | _ => Err
+        end
+      | EBin IS l r =>
+        do tv <- ev r; do lv <- ev l;
+        match tv with
+        | VStr t => Ok (VBool (bytes_eqb (is_name lv) t))
+        | VNull => Ok (VBool false)
+        | _ => Err
+        end
+      | EBin Equal l r | EBin NotEqual l r =>
+        do rv <- ev r; do lv <- ev l;
+        if compatible lv rv then
+          do q <- veq (eq_ordered c) f lv rv;
+          Ok (VBool (match e with EBin NotEqual _ _ => negb q | _ => q end))
+        else Err
+      | EBin REMatch l r | EBin NotREMatch l r =>
+        do rv <- ev r; do lv <- ev l;
+        match lv, rv with VStr _, VStr _ => Unsup | _, _ => Err end
+      | EBin ((GT | LT | GTEqual | LTEqual) as o) l r => do rv <- ev r; do lv <- ev l; compare_num o lv rv
+      | EBin o l r => do rv <- ev r; do lv <- ev l; arith' o lv rv
+      | ECopy t fs => do tv <- ev t; copy_imp f stk c tv fs
+      | ERange st stp en =>
+        do env_ <- ev en;
+        do stv <- match stp with Some s => ev s | None => Ok VNull end;
+        do sv <- ev st;
+        match sv, stv, env_ with
+        | VInt a, VNull, VInt z =>
+          if Z.ltb range_limit (range_len a 1 z) then Unsup else Ok (VList (range_from (Z.to_nat (range_len a 1 z)) a 1 z))
+        | VInt a, VInt s, VInt z =>
+          if Z.leb s 0 then Err
+          else if Z.ltb range_limit (range_len a s z) then Unsup
+          else Ok (VList (range_from (Z.to_nat (range_len a s z)) a s z))
+        | _, _, _ => Err
+        end
+      | EFormatL parts args =>
+        let holes := List.length (filter (fun p => match p with PHole => true | _ => false end) parts) in
+        if negb (Nat.eqb holes (List.length args)) then Err
+        else (* the reference gives no evaluation order for the arguments; the implementation evaluates
+                (and renders) them right to left, which only shows in which of two failing arguments is reported *)
+             (fix go (ps : list tpart) (es : list expr) : res value :=
+                match ps with
+                | [] => Ok (VStr [])
+                | PStr s :: ps' => do r <- go ps' es; match r with VStr t => Ok (VStr (s ++ t)) | _ => Err end
+                | PHole :: ps' =>
+                  match es with
+                  | a :: es' => do r <- go ps' es'; do v <- ev a; do t <- render f v;
+                                match r with VStr t' => Ok (VStr (t ++ t')) | _ => Err end
+                  | [] => Err
+                  end
+                | PExpr _ :: _ => Err
+                end) parts args
+      | EFormatS parts arg =>
+        do item <- ev arg;
+        let c' := with_scope c ((b "item", item) :: sc c) in
+        (fix go (ps : list tpart) : res value :=
+           match ps with
+           | [] => Ok (VStr [])
+           | PStr s :: ps' => do r <- go ps'; match r with VStr t => Ok (VStr (s ++ t)) | _ => Err end
+           | PExpr pe :: ps' =>
+             (* right to left, as the argument list above *)
+             do r <- go ps'; do v <- eval_imp f stk c' pe; do t <- render f v;
+             match r with VStr t' => Ok (VStr (t ++ t')) | _ => Err end
+           | PHole :: _ => Err
+           end) parts
+      | ECall fe args => do avs <- mapM ev args; do fv <- ev fe; call fv avs
+      | ECast ct e1 => do v <- ev e1; cast ct v
+      | EFunc ps body => Ok (VFunc ps body (sc c))
+      | ESelect ve dflt arms =>
+        do v <- ev ve;
+        let key := match v with
+                   | VStr s => Some s
+                   | VBool true => Some (b "true")
+                   | VBool false => Some (b "false")
+                   | _ => None end in
+        let hit := match key with
+                   | Some k => (fix find (arms : list (bytes * expr)) : option expr :=
+                                  match arms with
+                                  | [] => None
+                                  | (k', ae) :: arms' => if bytes_eqb k k' then Some ae else find arms'
+                                  end) arms
+                   | None => None end in
+        match hit with
+        | Some ae => ev ae
+        | None => match dflt with Some d => ev d | None => Err end
+        end
+      | EMap fe te =>
+        do fv <- ev fe; do tv <- ev te;
+        match fv with
+        | VFunc ps _ _ =>
+          match tv with
+          | VList l => if negb (Nat.eqb (List.length ps) 1) then Err
+                       else do r <- mapM (fun v => call fv [v]) l; Ok (VList r)
+          | VTuple fs =>
+            if negb (Nat.eqb (List.length ps) 2) then Err
+            else do r <- (fix go (fs : list (bytes * value)) : res (list (bytes * value)) :=
+                            match fs with
+                            | [] => Ok []
+                            | (k, v) :: fs' =>
+                              do out <- call fv [VStr k; v];
+                              match out with
+                              | VList [VStr k'; v'] => do r <- go fs'; Ok ((k', v') :: r)
+                              | VList _ => Err
+                              | _ => go fs'        (* reference: "should produce a list of [field, value]";
+                                                      anything else is dropped by the implementation *)
+                              end
+                            end) fs;
+                 Ok (VTuple r)
+          | VStr s => if negb (Nat.eqb (List.length ps) 1) then Err
+                      else do r <- mapM (fun ch => do o <- call fv [VStr ch];
+                                                    match o with VStr t => Ok t | _ => Err end) (utf8_chars s);
+                           Ok (VStr (concat r))
+          | _ => Err
+          end
+        | _ => Err
+        end
+      | EFilter fe te =>
+        do fv <- ev fe; do tv <- ev te;
+        let keep (o : value) : bool := match o with VNull | VBool false => false | _ => true end in
+        match fv with
+        | VFunc ps _ _ =>
+          match tv with
+          | VList l => if negb (Nat.eqb (List.length ps) 1) then Err
+                       else do r <- mapM (fun v => do o <- call fv [v]; Ok (keep o, v)) l;
+                            Ok (VList (map snd (filter fst r)))
+          | VTuple fs => if negb (Nat.eqb (List.length ps) 2) then Err
+                         else do r <- mapM (fun '(k, v) => do o <- call fv [VStr k; v]; Ok (keep o, (k, v))) fs;
+                              Ok (VTuple (map snd (filter fst r)))
+          | VStr s => if negb (Nat.eqb (List.length ps) 1) then Err
+                      else do r <- mapM (fun ch => do o <- call fv [VStr ch]; Ok (keep o, ch)) (utf8_chars s);
+                           Ok (VStr (concat (map snd (filter fst r))))
+          | _ => Err
+          end
+        | _ => Err
+        end
+      | EReduce fe ae te =>
+        do fv <- ev fe; do acc <- ev ae; do tv <- ev te;
+        match fv with
+        | VFunc ps _ _ =>
+          match tv with
+          | VList l => if negb (Nat.eqb (List.length ps) 2) then Err
+                       else fold_left (fun a v => do a' <- a; call fv [a'; v]) l (Ok acc)
+          | VTuple fs => if negb (Nat.eqb (List.length ps) 3) then Err
+                         else fold_left (fun a '(k, v) => do a' <- a; call fv [a'; VStr k; v]) fs (Ok acc)
+          | VStr s => if negb (Nat.eqb (List.length ps) 2) then Err
+                      else fold_left (fun a ch => do a' <- a; call fv [a'; VStr ch]) (utf8_chars s) (Ok acc)
+          | _ => Err
+          end
+        | _ => Err
+        end
+      | EModule ps out body => do pv <- tuple_lit c ps; Ok (VModule pv out body)
+      | EFail e1 => do _ <- ev e1; Err
+      | ETrace e1 => ev e1
+      | EImport p =>
+        (* the value of an import: the file's statements run in an empty scope (same env, strictness
+           and equality reading), exported as the tuple of its bindings in name order; a file that is
+           still being imported is an import cycle; an unknown path is an error *)
+        if existsb (bytes_eqb p) stk then Err
+        else match imports p with
+             | None => Err
+             | Some pr =>
+               do s <- exec_imp f (p :: stk)
+                         {| sc := []; self_v := None; envt := envt c; strict := strict c;
+                            eq_ordered := eq_ordered c |} pr;
+               Ok (VTuple (export_scope s false))
+             end
+      | EInclude _ _ | EConvert _ _ => Unsup
+      end
+    end
+  with copy_imp (fuel : nat) (stk : list bytes) (c : ctx) (tv : value) (fs : list (bytes * expr)) {struct fuel} : res value :=
+    match fuel with
+    | O => Fuel
+    | S f =>
+      (* the override fields are evaluated with `self` = the value being copied *)
+      let c' := with_self c (Some tv) in
+      do ovs <- fold_left (fun acc '(k, e) => do a <- acc; do v <- eval_imp f stk c' e; merge_field a k v) fs (Ok []);
+      match tv with
+      | VTuple base => do r <- merge_fields base ovs; Ok (VTuple r)
+      | VModule ps out body =>
+        do flds <- merge_fields ps ovs;
+        do flds <- merge_field flds (b "this") tv;
+        (* the reference does not say what `self` is inside a module body; the implementation leaves the
+           module being instantiated on the self stack, and so do we *)
+        let c0 := {| sc := [(b "mod", VTuple flds)]; self_v := Some tv; envt := envt c;
+                     strict := strict c; eq_ordered := eq_ordered c |} in
+        do s <- exec_imp f stk c0 body;
+        match out with
+        | Some oe => eval_imp f stk (with_scope c0 s) oe
+        | None => Ok (VTuple (export_scope s true))
+        end
+      | _ => Err
+      end
+    end
+  with exec_imp (fuel : nat) (stk : list bytes) (c : ctx) (ss : list stmt) {struct fuel} : res scope :=
+    match fuel with
+    | O => Fuel
+    | S f =>
+      match ss with
+      | [] => Ok (sc c)
+      | s :: ss' =>
+        do s1 <- match s with
+                 | SLet x e =>
+                   do v <- eval_imp f stk c e;
+                   if is_reserved x then Err
+                   else match lookup x (sc c) with
+                        | Some _ => Err                       (* bindings are immutable *)
+                        | None => Ok ((x, v) :: sc c)
+                        end
+                 | SExpr e => do _ <- eval_imp f stk c e; Ok (sc c)
+                 | SAssert _ | SOut _ _ => Unsup
+                 end;
+        exec_imp f stk (with_scope c s1) ss'
+      end
+    end.
+
+  (* a whole program (the file the build starts from; it has no import path on the stack) *)
+  Definition sem_prog_imp (fuel : nat) (envv : list (bytes * bytes)) (strict_ : bool) (ordered : bool) (p : prog)
+    : res (list (bytes * value)) :=
+    do s <- exec_imp fuel [] {| sc := []; self_v := None; envt := envv; strict := strict_; eq_ordered := ordered |} p;
+    Ok (export_scope s false).
+End SemImport.
+
+(* ------------------------------------------------------------------ *)
+(* the embedded standard library                                        *)
+Definition std_table : list (bytes * prog) :=
+  map (fun np => (fst np, link_prog (fst np) (snd np)))
+      [ (b "std/lists.ucg", std_lists); (b "std/tuples.ucg", std_tuples); (b "std/strings.ucg", std_strings);
+        (b "std/functional.ucg", std_functional); (b "std/schema.ucg", std_schema) ].
+Fixpoint assoc_bytes {A} (k : bytes) (l : list (bytes * A)) : option A :=
+  match l with
+  | [] => None
+  | (k', a) :: l' => if bytes_eqb k k' then Some a else assoc_bytes k l'
+  end.
+Definition std_imports (p : bytes) : option prog := assoc_bytes p std_table.
